@@ -329,6 +329,7 @@ struct Run {
     bool ok = false;            // value returned
     bool undefined = false;     // an R/R cell (or other undefined behaviour) was consulted: no verdict
     bool horizon = false;       // step limit reached
+    bool lex_error = false;     // stopped because the next term could not be lexed
     int nerrors = 0;
     std::vector<int> err_tok;   // token index of each reported syntax error (== tokens.size() for <eof>)
     std::vector<int> err_term;  // offending term
@@ -354,7 +355,7 @@ struct Tok { int term, off, len; };
 // Table concept: Act action(int state, int term) const; int go(int state, int nt) const;
 // fixed_recovery: true = the documented procedure (offer `error` to the current state first)
 template<class Table>
-Run drive(const Gram& g, const Table& tb, const std::vector<Tok>& toks, int step_limit = 4000) {
+Run drive(const Gram& g, const Table& tb, const std::vector<Tok>& toks, int step_limit = 4000, bool lex_fails_after_last = false) {
     Run R;
     std::vector<int> st{0}, vals;
     size_t i = 0; bool recovery = false, consume = false; int steps = 0;
@@ -362,6 +363,7 @@ Run drive(const Gram& g, const Table& tb, const std::vector<Tok>& toks, int step
     while (true) {
         if (++steps > step_limit) { R.horizon = true; return R; }
         R.max_depth = std::max(R.max_depth, (int)st.size());
+        if (!recovery && i >= toks.size() && lex_fails_after_last) { R.lex_error = true; return R; }   // the lexer cannot produce the next term
         int t = recovery ? g.err() : (i < toks.size() ? toks[i].term : g.eof());
         Act a = tb.action(st.back(), t);
         if (a.kind == K_ERROR) {
